@@ -3,6 +3,7 @@
 package dht
 
 import (
+	"context"
 	"sort"
 	"time"
 
@@ -130,4 +131,9 @@ func VerifBucketIndex(root, id [20]byte) int {
 func VerifRandomIdInBucket(root [20]byte, bucketIndex int) [20]byte {
 	id := randomIdInBucket(int160.FromByteArray(root), bucketIndex)
 	return id.AsByteArray()
+}
+
+// Runs the questionable-node ping the table maintainer would run (marks the entry bad on time-out).
+func (s *Server) VerifQuestionableNodePing(ctx context.Context, addr Addr, id [20]byte) QueryResult {
+	return s.questionableNodePing(ctx, addr, id)
 }
